@@ -89,6 +89,20 @@ def events(dn):
     for nr in nrs:
         ev.append(("set", (KEYS[0], b"x"), dict(expire=ABS_SOON, noreply=nr)))
     ev.append(("touch", (KEYS[0],), dict(expire=ABS_SOON, noreply=False)))
+    # the mapping protocol (a stored item is found whatever its value, a missing one is a KeyError)
+    for k in KEYS:
+        ev.append(("__getitem__", (k,), {}))
+    ev.append(("__setitem__", (KEYS[0], b"x"), {}))
+    ev.append(("__setitem__", (KEYS[0], b""), {}))
+    ev.append(("__delitem__", (KEYS[0],), {}))
+    # the caller's own placeholders for a miss, all different
+    ev.append(("get", (KEYS[0],), dict(default="D")))
+    ev.append(("gets", (KEYS[0],), dict(default="D", cas_default="C")))
+    ev.append(("gat", (KEYS[0],), dict(expire=5, default="D")))
+    ev.append(("gats", (KEYS[0],), dict(expire=5, default="D", cas_default="C")))
+    # a key named more than once in one multi-key read
+    ev.append(("get_many", ((KEYS[0], KEYS[1], KEYS[0]),), {}))
+    ev.append(("gets_many", ((KEYS[1], KEYS[1]),), {}))
     ev.append(("advance", (1,), {}))
     ev.append(("advance", (10,), {}))
     return ev
@@ -210,7 +224,18 @@ def step(prefix, dn, state, ev, variant=DEFAULT_VARIANT):
         got = Raises("MemcacheClientError") if type(e) is MemcacheClientError else Raises(type(e).__name__)
     except Exception as e:
         got = Raises(type(e).__name__)
-    want = getattr(a, name)(*[list(x) if isinstance(x, tuple) and name.endswith("many") else x for x in real_args], **akw)
+    if name == "__getitem__":
+        want = a.get(args[0])
+        if want is None:
+            want = Raises("KeyError")
+    elif name == "__setitem__":
+        a.set(args[0], args[1], noreply=True)
+        want = None
+    elif name == "__delitem__":
+        a.delete(args[0], noreply=True)
+        want = None
+    else:
+        want = getattr(a, name)(*[list(x) if isinstance(x, tuple) and name.endswith("many") else x for x in real_args], **akw)
     # a follow-up on the same connection: each call must still get the answer to its own request
     probe_bad = None
     if not isinstance(got, Raises) or got == want:
@@ -222,7 +247,7 @@ def step(prefix, dn, state, ev, variant=DEFAULT_VARIANT):
         pw = a.gets(KEYS[0])
         if not (pg == pw and pd is False):
             probe_bad = (pg, pd, pw)
-    if name in ("gets", "gats") and isinstance(got, tuple) and got[1] is not None:
+    if name in ("gets", "gats") and isinstance(got, tuple) and isinstance(got[1], bytes) and got[1].isdigit():
         tokens[args[0]] = int(got[1])
     if name == "gets_many" and isinstance(got, dict):
         for k, (v, c) in got.items():
